@@ -6,6 +6,7 @@ package harness
 import (
 	"context"
 	"fmt"
+	"github.com/ipfs/go-unixfsnode/file"
 	"github.com/ipfs/go-unixfsnode/hamt"
 	"github.com/ipld/go-ipld-prime"
 	"io"
@@ -30,6 +31,17 @@ type c17Op struct {
 	Kind string
 	Arg  string
 	A, B int64
+}
+
+// slowNode is a caller-implemented node around another one whose field lookups give up the processor a few times before
+// answering (what a lazily decoding or remote-backed node does).
+type slowNode struct{ datamodel.Node }
+
+func (s slowNode) LookupByString(k string) (datamodel.Node, error) {
+	for i := 0; i < 3; i++ {
+		runtime.Gosched()
+	}
+	return s.Node.LookupByString(k)
 }
 
 // c17RunScript executes the script on node n and returns one result string per op.
@@ -142,7 +154,7 @@ const c17Rule = "case = shared reified node (sharded directory with cold cache /
 func TestC17_P_ConcurrentReads(t *testing.T) {
 	ev := newEvid(t, c17Rule)
 	rapid.Check(t, func(t *rapid.T) {
-		kind := rapid.SampledFrom([]string{"hamt-cold", "hamt-cold", "hamt-warm", "file", "file-oldstyle", "hamt-cold-faulty", "file-wide", "plaindir-wide", "hamt-cold-flaky", "file-oldstyle-measured"}).Draw(t, "kind")
+		kind := rapid.SampledFrom([]string{"hamt-cold", "hamt-cold", "hamt-warm", "file", "file-oldstyle", "hamt-cold-faulty", "file-wide", "plaindir-wide", "hamt-cold-flaky", "file-oldstyle-measured", "file-slowroot"}).Draw(t, "kind")
 		st := NewStore()
 		st.Yield = rapid.Bool().Draw(t, "yieldingStore") // every load gives up the processor, as a store blocking on I/O does
 		var root cid.Cid
@@ -171,6 +183,30 @@ func TestC17_P_ConcurrentReads(t *testing.T) {
 			if err != nil {
 				t.Fatalf("harness: %v", err)
 			}
+		} else if kind == "file-slowroot" {
+			// a hand-assembled file whose recorded BlockSizes do not all match what its dag-pb leaves hold (a writer's
+			// mistake; FileSize is their sum), opened with file.NewUnixFSFile over a caller-implemented root node whose field
+			// lookups give up the processor (a lazily decoded or remote-backed node): the first uses of the fresh node overlap
+			// inside its one-time set-up. Alone, every read is positioned by the recorded sizes; so it must be concurrently.
+			nl := rapid.IntRange(2, 5).Draw(t, "srLeaves")
+			m := &mnode{HasData: true, UFS: &ufsFields{Type: 2}}
+			tot := uint64(0)
+			for i := 0; i < nl; i++ {
+				real := rapid.IntRange(1, 8).Draw(t, "srLeafLen")
+				rec := uint64(max(0, real+rapid.SampledFrom([]int{0, 0, -2, -1, 1, 2}).Draw(t, "srSkew")))
+				c := lcgBytes(real, byte(i+1), 0)
+				m.Links = append(m.Links, mlink{Tsize: i64p(int64(real)), Child: &mnode{HasData: true, UFS: &ufsFields{Type: 2, HasData: true, Data: c, FileSize: u64p(uint64(real))}}})
+				m.UFS.BlockSizes = append(m.UFS.BlockSizes, rec)
+				tot += rec
+				content = append(content, c...)
+			}
+			m.UFS.FileSize = u64p(tot)
+			var err error
+			root, err = m.store(st, st.LinkSystem())
+			if err != nil {
+				t.Fatalf("harness: %v", err)
+			}
+			st.Yield = true
 		} else if kind == "file-oldstyle-measured" {
 			// a file whose length has to be measured by opening its children (no FileSize, no BlockSizes, link nodes below
 			// the root), on a store that yields at every load: every goroutine starts by asking for the end
@@ -284,6 +320,17 @@ func TestC17_P_ConcurrentReads(t *testing.T) {
 		ls := st.LinkSystem()
 		c17LS = ls
 		fresh := func() datamodel.Node {
+			if kind == "file-slowroot" {
+				pn, err := loadPlain(ls, root)
+				if err != nil {
+					t.Fatalf("harness: load: %v", err)
+				}
+				n, err := file.NewUnixFSFile(sessionCtx, slowNode{pn}, ls)
+				if err != nil {
+					t.Fatalf("harness: NewUnixFSFile over a caller-implemented root: %v", err)
+				}
+				return n
+			}
 			n, err := loadReified(ls, root, "unixfs")
 			if err != nil {
 				t.Fatalf("harness: reify: %v", err)
